@@ -16,6 +16,10 @@ import threading
 import traceback
 import time as _real_time
 
+import re as _re
+
+_TILE_SUFFIX = _re.compile(r"(\d+_\d+|L\d+X\d+Y\d+)\.[A-Za-z0-9]+(\.[A-Za-z0-9]+)*$")
+_DIGITS = _re.compile(r"\d+")
 _real_sleep = _real_time.sleep
 _real_monotonic = _real_time.monotonic
 
@@ -235,6 +239,13 @@ class Sim(object):
             path = path.rsplit("/", 1)[-1]
         if self._realpid in path:       # a real pid must never enter the trace
             path = path.replace(self._realpid, "PID")
+        # temporary / scratch names built around a tile name (".tmp-<pid>-<seq>-1_0.fits", "1_0.fits.part") carry
+        # counters and ids that may differ between two executions of the same schedule: keep the tile name, mask the rest
+        head, _, base = path.rpartition("/")
+        m = _TILE_SUFFIX.search(base)
+        if m is not None and m.start() > 0:
+            base = _DIGITS.sub("#", base[:m.start()]) + base[m.start():]
+            path = (head + "/" + base) if head else base
         return path
 
     def request_storm(self, tasks, window=12):
